@@ -59,6 +59,7 @@ def main(argv=None) -> int:
     parser.add_argument('--tier', default=os.environ.get('VERIF_TIER', 'quick'), choices=['quick', 'thorough'])
     parser.add_argument('--replay')
     parser.add_argument('--shards', type=int)
+    parser.add_argument('--evidence-dir', help='write evidence/replay here instead of /verif (mutation self-tests)')
     parser.add_argument('--jobs', type=int, default=int(os.environ.get('VERIF_JOBS', '16')))
     args = parser.parse_args(argv)
     pid = args.property.upper()
@@ -120,10 +121,11 @@ def main(argv=None) -> int:
     for key in sorted(hits):
         print(f'KNOWN-FINDING: property={pid} {key}: {known[key]["what"]} (observed {hits[key]}x in this run)')
     exit_code = 0
-    os.makedirs(os.path.join(core.VERIF, 'replay'), exist_ok=True)
+    outroot = args.evidence_dir or core.VERIF
+    os.makedirs(os.path.join(outroot, 'replay'), exist_ok=True)
     for key in sorted(fresh):
         first = fresh[key][0]
-        path = os.path.join(core.VERIF, 'replay', f'{pid}-{core.digest([key, first["witness"]], 10)}.json')
+        path = os.path.join(outroot, 'replay', f'{pid}-{core.digest([key, first["witness"]], 10)}.json')
         with open(path, 'w', encoding='utf-8') as fd:
             json.dump(
                 core.jsonable(
@@ -161,8 +163,8 @@ def main(argv=None) -> int:
             'property_id': pid, 'tier': args.tier, 'seed': seed, 'level': module.LEVEL, 'coverage': coverage,
             'assumptions': list(module.ASSUMPTIONS), 'wall_s': round(wall, 2), 'violations': len(fresh),
         }
-        os.makedirs(os.path.join(core.VERIF, 'evidence'), exist_ok=True)
-        with open(os.path.join(core.VERIF, 'evidence', f'{pid}.json'), 'w', encoding='utf-8') as fd:
+        os.makedirs(os.path.join(outroot, 'evidence'), exist_ok=True)
+        with open(os.path.join(outroot, 'evidence', f'{pid}.json'), 'w', encoding='utf-8') as fd:
             json.dump(evidence, fd, indent=1, sort_keys=True)
     verdict = {0: 'HELD', 1: 'VIOLATED', 2: 'INCONCLUSIVE'}[exit_code]
     print(
